@@ -318,8 +318,6 @@ def c12_p(F, X, rep):
 
 # ---------------------------------------------------------------------------- G
 def c12_g(F, X, rep):
-    try:
-        import model_hh
-    except ImportError:
-        return
-    model_hh.gate_rules(F, X, rep, "C12-G", which=("expiry", "total"))
+    import rules_hh
+    rep.rule("C12-G", "the declared-total gate and the relative-expiry gate answer with fee_or_expiry_insufficient(configured policy) before the HTLC is added")
+    rules_hh.gate_rules(F, X, rep, "C12-G", which=("expiry", "total"))
